@@ -263,7 +263,7 @@ def check(prop, tier, seed, only_sub=None, jobs=None):
         "wall_s": round(wall, 2),
         "violations": len(violations),
     }
-    if only_sub is None:
+    if only_sub is None and not os.environ.get("VP_NO_EVIDENCE"):
         evdir = os.path.join(HERE, "evidence")
         os.makedirs(evdir, exist_ok=True)
         tmp = os.path.join(evdir, f".{prop}.json.tmp")
